@@ -2,6 +2,7 @@
 package c18
 
 import (
+	"sync"
 	"encoding/json"
 	"errors"
 	"fmt"
@@ -141,7 +142,7 @@ func checkParse(text string, failAt int) (reductions int, err error) {
 		if step != len(e.events) {
 			return reductions, fmt.Errorf("%d callbacks fired, the derivation has %d steps", step, len(e.events))
 		}
-		return reductions, nil
+		return reductions, oneSided(text, e, failAt)
 	}
 	if rerr == nil {
 		return reductions, fmt.Errorf("callback %d (%s) returned an error, but Parse reports success", failAt, describeEvent(e, e.events[failAt]))
@@ -152,7 +153,71 @@ func checkParse(text string, failAt int) (reductions int, err error) {
 	if step != failAt+1 {
 		return reductions, fmt.Errorf("callback %d failed, but %d callbacks fired in total", failAt, step)
 	}
-	return reductions, nil
+	return reductions, oneSided(text, e, failAt)
+}
+
+// oneSided: a caller may pass only one of the two callbacks.  With only the production callback the reductions must
+// come in the same order (and an error returned at the k-th one must come back); with only the token callback every
+// significant token must be delivered.
+func oneSided(text string, e *expectation, failAt int) error {
+	var prods []int
+	for _, ev := range e.events {
+		if ev < 0 {
+			prods = append(prods, -1-ev)
+		}
+	}
+	failProd := -1 // ordinal of the failing production callback
+	if failAt >= 0 && failAt < len(e.events) && e.events[failAt] < 0 {
+		for _, ev := range e.events[:failAt] {
+			if ev < 0 {
+				failProd++
+			}
+		}
+		failProd++
+	}
+	var got []int
+	var rerr error
+	if perr := rec.Guard(func() {
+		var p *ebnf.Parser
+		if p, rerr = ebnf.New("t.ebnf", strings.NewReader(text)); rerr != nil {
+			return
+		}
+		rerr = p.Parse(nil, func(i int) error {
+			got = append(got, i)
+			if len(got)-1 == failProd {
+				return injected(failAt)
+			}
+			return nil
+		})
+	}); perr != nil {
+		return fmt.Errorf("Parse(nil, productions): %v", perr)
+	}
+	want := prods
+	if failProd >= 0 {
+		want = prods[:failProd+1]
+		if rerr == nil {
+			return fmt.Errorf("Parse(nil, productions): production callback %d returned an error, but Parse reports success (%d callbacks fired)", failProd, len(got))
+		}
+	} else if rerr != nil {
+		return fmt.Errorf("Parse(nil, productions) rejects a valid specification: %v", rerr)
+	}
+	if fmt.Sprint(got) != fmt.Sprint(want) {
+		return fmt.Errorf("Parse(nil, productions): the production callback fired for %v, the derivation reduces by %v", got, want)
+	}
+	nTok := 0
+	if perr := rec.Guard(func() {
+		var p *ebnf.Parser
+		if p, rerr = ebnf.New("t.ebnf", strings.NewReader(text)); rerr != nil {
+			return
+		}
+		rerr = p.Parse(func(tok *lexer.Token) error { nTok++; return nil }, nil)
+	}); perr != nil {
+		return fmt.Errorf("Parse(tokens, nil): %v", perr)
+	}
+	if rerr != nil || nTok != len(e.toks) {
+		return fmt.Errorf("Parse(tokens, nil): %d token callbacks for %d significant tokens, error %v", nTok, len(e.toks), rerr)
+	}
+	return nil
 }
 
 func describeEvent(e *expectation, ev int) string {
@@ -360,8 +425,18 @@ func resultOf(id int) any {
 		return nil
 	case 4:
 		return id
+	case 1:
+		// a result that is itself a value object (a callback that boxes its results, or passes one of its values on)
+		return boxed(id)
 	}
 	return &tag{id}
+}
+
+var boxes sync.Map // id -> *lr.Value
+
+func boxed(id int) *lr.Value {
+	v, _ := boxes.LoadOrStore(id, &lr.Value{Val: fmt.Sprintf("boxed-%d", id), Pos: &lexer.Position{Filename: "boxed", Offset: id, Line: 1000 + id, Column: 7}})
+	return v.(*lr.Value)
 }
 
 func isResultOf(v any, id int) bool {
@@ -370,6 +445,9 @@ func isResultOf(v any, id int) bool {
 		return v == nil
 	case int:
 		x, ok := v.(int)
+		return ok && x == w
+	case *lr.Value:
+		x, ok := v.(*lr.Value)
 		return ok && x == w
 	default:
 		tg, ok := v.(*tag)
